@@ -1232,7 +1232,7 @@ def _gen_cascade(rng, tier, scale):
     """re-entrant use: one filter object applied 2-4 times to its own lazy output (exact regime only: integer
     coefficients, Fraction data, integer-valued zero)"""
     out = []
-    for _ in range((120 if tier == "quick" else 1500) * scale):
+    for _ in range((120 if tier == "quick" else 700) * scale):
         route = rng.choice(["list", "list", "dict", "zexpr", "linear", "poly"])
         lb, la = rng.choice([1, 2, 2, 3]), rng.choice([1, 2, 2, 3])
         b = [rng.choice([0, 1, -1, 2, 3, -2]) for _ in range(lb)]
@@ -1261,7 +1261,7 @@ def _gen_cascade(rng, tier, scale):
 def _gen_long(rng, tier, scale):
     quick = tier == "quick"
     out = []
-    reps = (2 if quick else 8) * scale
+    reps = (2 if quick else 4) * scale
     for _ in range(reps):
         for D in LONG_DELAYS:
             for shape in ("fir-sparse", "iir-sparse", "fir-dense", "both"):
@@ -1288,7 +1288,7 @@ def _gen_gcascade(rng, tier, scale):
     pool = [0, 1, -1, gi(0, 1), gi(0, -1), gi(1, 1), 2, gi(0, 2), gi(1, 0), gi(-1, 0), gi(2, -1), {"b": True}, -2]
     smp = lambda: gi(rng.randint(-3, 3), rng.randint(-3, 3)) if rng.random() < 0.75 else rng.randint(-5, 5)
     out = []
-    for _ in range((120 if tier == "quick" else 1500) * scale):
+    for _ in range((120 if tier == "quick" else 700) * scale):
         route = rng.choice(["list", "list", "dict", "linear", "poly", "cast"])
         lb, la = rng.choice([1, 2, 2, 3]), rng.choice([1, 2, 2, 3])
         b = [rng.choice(pool) for _ in range(lb)]
@@ -1331,7 +1331,7 @@ def _gen_gcompile(rng, tier, scale):
         for z in zeros:                       # the all-zero filter: `yield {zero}`
             out.append({"entry": "gcompile", "b": rng.choice([[], [0], [gi(0, 0), {"f": 0.0}]]),
                         "a": [rng.choice([1, 2, gi(0, 1), -1])] + rng.choice([[], [0], [0, {"f": 0.0}]]), "zero": z})
-    for _ in range((150 if tier == "quick" else 3000) * scale):
+    for _ in range((150 if tier == "quick" else 900) * scale):
         pool = X.POOLS[rng.choice(["all", "all", "gaussint", "unit", "intbool", "huge", "dyadic", "frac"])]
         b = [rng.choice(pool) for _ in range(rng.choice([0, 1, 2, 3, 5]))]
         a = [rng.choice(pool) for _ in range(rng.choice([1, 2, 3, 4]))]
@@ -1349,7 +1349,7 @@ def _gen_free(rng, tier, scale):
     """all-zero numerators (every spelling and length, incl. none at all) x denominators of order >= 1 x memory kinds x
     zero values: the trivial `yield zero` generator must NOT be chosen; exact regime (int coefficients, Fraction data)"""
     out = []
-    for _ in range((220 if tier == "quick" else 3000) * scale):
+    for _ in range((220 if tier == "quick" else 900) * scale):
         route = rng.choice(["list", "list", "dict", "odict", "linear", "poly", "cast", "zexpr"])
         zs = ZERO_SPELLINGS[rng.choice(["int", "int", "frac", "float"])]
         nb = rng.choice([0, 1, 1, 2, 3])
@@ -1391,7 +1391,7 @@ def _gen_gain(rng, tier, scale):
     """a[0] of every spelling other than +-1 (int, negative, huge, integer-valued and other Fractions, floats) x exact
     samples (Fractions with odd denominators, huge integers as Fractions): with an int gain the outputs are EXACT"""
     out = []
-    for i in range((260 if tier == "quick" else 3000) * scale):
+    for i in range((260 if tier == "quick" else 900) * scale):
         g = GAIN_POOL[i % len(GAIN_POOL)] if i < 3 * len(GAIN_POOL) else rng.choice(GAIN_POOL)
         lb, la = rng.choice([1, 2, 3]), rng.choice([1, 2, 2, 3])
         b = [rng.choice([1, -1, 2, 3, 0, -5]) for _ in range(lb)]
@@ -1417,7 +1417,7 @@ def _gen_memread(rng, tier, scale):
     """iterator memories of every length around the order (0 .. lm+3, endless) on filters of order 0..4: the caller's
     iterator is observed right after the call (items pulled, what it delivers next)"""
     out = []
-    for _ in range((220 if tier == "quick" else 3000) * scale):
+    for _ in range((220 if tier == "quick" else 900) * scale):
         lm = rng.choice([0, 0, 1, 1, 2, 3, 4])
         a = [rng.choice([1, -1, 2])] + [rng.choice([0, 1, -1, 2]) for _ in range(lm)]
         if lm:
@@ -1455,7 +1455,7 @@ def generate(rng, tier, scale=1):
                                           "num": [[k, v] for k, v in enumerate(b)],
                                           "den": [[k, v] for k, v in enumerate(a)],
                                           "mem": mem, "zero": "0/1" if a[0] != 2 else "7/1", "xs": xs})
-    nshapes = (1200 if quick else 20000) * scale
+    nshapes = (1200 if quick else 9000) * scale
     max_order = 8
     max_len = 12 if quick else 64
     for _ in range(nshapes):
@@ -1463,7 +1463,7 @@ def generate(rng, tier, scale=1):
         for _ in range(3):
             cases.append(_case(rng, route, num, den, max_len))
     # malformed stream: negative delays, empty / all-zero denominators
-    for _ in range((150 if quick else 1500) * scale):
+    for _ in range((150 if quick else 700) * scale):
         route = rng.choice(["dict", "zexpr", "list"])
         if route == "list":
             lead = rng.randint(1, 3)
